@@ -130,6 +130,49 @@ def sibling_fields(rng, members, K, before_ok=lambda m: True):
     return out
 
 
+def draw_position_dims(rng, engine):
+    """DIMENSIONS of *where and how* the Union is declared, beyond the container position:
+    nest  - the Union is a field of a NESTED class (no Meta of its own) 0 / 1 / 2 levels below the main class;
+    rec   - (default engine) Meta.recursive_classes on the main class: nested dataclasses are reached through lazily built loaders;
+            with a self reference of the main class (what the setting is for) or without;
+    fwd   - the dataclass members are written as forward references inside a real typing.Union (Union['Cat', 'Dog', int]), the member
+            classes defined before (True) or after ('late') the class that refers to them."""
+    nest = rng.choice([0, 0, 0, 1, 1, 2])
+    rec = rng.choice([None, None, None, 'plain', 'selfref']) if engine == 'v0' else rng.choice([None, None, None, 'selfref'])
+    fwd = rng.choice([None, None, None, True, 'late'])
+    return nest, rec, fwd
+
+
+def nest_union(fresh, rng, ft, nest):
+    """-> (type of the main class's `member_fld`, holder classes innermost first): `nest` levels of plain holder classes, each with the one
+    field `member_fld`"""
+    holders = []
+    for _ in range(nest):
+        h = {'k': 'cls', 'info': {'name': fresh('H'), 'fields': [{'name': 'member_fld'}], 'wizard': rng.choice([False, False, True]), 'meta': None},
+             'ftys': [['member_fld', ft]]}
+        holders.append(h)
+        ft = h
+    return ft, holders
+
+
+def add_self_reference(root):
+    """the main class refers to itself: `again: Optional['R'] = None`, declared last"""
+    root['info']['fields'].append({'name': 'again', 'dflt': ['lit', None], 'factory': False})
+    root['ftys'].append(['again', T('optional', T('selfref', name=root['info']['name']))])
+
+
+def doc_at(d, fld, nest):
+    for _ in range(nest + 1):
+        d = d[fld] if isinstance(d, dict) and fld in d else None
+    return d
+
+
+def obj_at(o, nest):
+    for _ in range(nest + 1):
+        o = o.member_fld
+    return o
+
+
 def root_with_siblings(name, ft, meta, sibs):
     before = [(n, t) for n, t, _m, b in sibs if b]
     after = [(n, t) for n, t, _m, b in sibs if not b]
@@ -350,8 +393,20 @@ def run_default(ctx: C.Ctx):
         dims = rng.choice([(), (), ('names',), ('paths',), ('sibs',), ('sibs',), ('names', 'sibs'), ('paths', 'sibs'), ('names', 'paths', 'sibs')])
         shared = share_names(rng, members, auto) if 'names' in dims else []
         pathed = add_path_fields(rng, members, 'v0') if 'paths' in dims else []
-        sibs = sibling_fields(rng, members, K) if 'sibs' in dims else []
-        root = root_with_siblings(model.fresh('R'), ft, meta, sibs)
+        nest, rec, fwd = draw_position_dims(rng, 'v0')
+        # kept out (a genuine defect of the unchanged library, findings/recursive-classes-auto-tag-member-dumped-before-nested-union.py): under
+        # recursive_classes an auto-tagged member that is referenced by a main-class field declared BEFORE the field leading to the NESTED class that
+        # holds the Union is dumped without its tag; such references are declared after it here
+        lazy_nested = bool(rec and nest and auto)
+        sibs = sibling_fields(rng, members, K, before_ok=lambda m: not lazy_nested or bool((m['info'].get('meta') or {}).get('tag'))) if 'sibs' in dims else []
+        if fwd:
+            union['fwd'] = True if sibs else fwd      # a class that is also referred to by name is defined first
+        if rec:
+            meta['recursive_classes'] = True
+        top_ft, holders = nest_union(model.fresh, rng, ft, nest)
+        root = root_with_siblings(model.fresh('R'), top_ft, meta, sibs)
+        if rec == 'selfref':
+            add_self_reference(root)
         stepped = spread_bindings(rng, members, root, 'v0') if rng.random() < 0.3 else {}
         try:
             built = model.Built(root)
@@ -365,11 +420,24 @@ def run_default(ctx: C.Ctx):
             wrapped = {'bare': k, 'optional': k, 'list': [k, gen.gen_instance(rng, rng.choice(members), built)],
                        'dictval': {'a': k}, 'tuple': ('s', k)}[pos]
             sib_vals = {n: gen.gen_value(rng, t, built) for n, t, _m, _b in sibs}
+            for h in holders:
+                wrapped = built.get(h['info']['name'])(member_fld=wrapped)
             x = built.root(member_fld=wrapped, **sib_vals)
+            if rec == 'selfref':
+                x = built.root(member_fld=wrapped, again=x, **sib_vals)
             mapdim = draw_mapping(rng)
+            # every draw of the case is made before begin_case, so that a replay (which skips the other cases) regenerates the same stream
+            standalone_first = rng.random() < 0.3
+            variant = rng.choice(['unassigned', 'missing'])
+            bad_tag_pick = rng.randint(0, 4)
             if not ctx.begin_case(i):
                 continue
             case = {'ty': root, 'member': K['info']['name'], 'pos': pos, 'inst': repr(x)[:400]}
+            if nest or rec or fwd:
+                case['declared'] = {'nested_levels': nest, 'recursive_classes': rec, 'forward_refs': union.get('fwd')}
+                for dname, on in (('nested-union', nest), ('recursive-classes', rec), ('forward-ref-members', fwd)):
+                    if on:
+                        ctx.seen('tagged:dim:' + dname, case)
             if shared:
                 case['shared_name'] = shared
             if pathed:
@@ -392,7 +460,6 @@ def run_default(ctx: C.Ctx):
             # captures the tag key.  Those sibling fields are left out of the load-first comparison; the Union field never is.
             skip_sibs = {n for n, _t, m, b in sibs if b and auto and not (m['info'].get('meta') or {}).get('tag')
                          and any(f.get('catch_all') for f in m['info']['fields'])}
-            standalone_first = rng.random() < 0.3
             case['standalone_first'] = standalone_first
             try:
                 if standalone_first:
@@ -401,7 +468,14 @@ def run_default(ctx: C.Ctx):
             except Exception as e:
                 ctx.fail('tagged:dump', case, f'asdict raised {e!r}', detail=src)
                 continue
-            dk = {'bare': lambda z: z, 'optional': lambda z: z, 'list': lambda z: z[0], 'dictval': lambda z: z['a'], 'tuple': lambda z: z[1]}[pos](d['memberFld'])
+            dk = doc_at(d, 'memberFld', nest)
+            dk = _AT[pos](dk) if dk is not None else None
+            if rec == 'selfref' and dk is not None:
+                # the same member one level down the self reference
+                dk2 = doc_at(d.get('again'), 'memberFld', nest)
+                dk2 = _AT[pos](dk2) if dk2 is not None else None
+                if not isinstance(dk2, dict) or dk2.get(eff_key) != exp_tag:
+                    dk = dk2
             if not isinstance(dk, dict) or dk.get(eff_key) != exp_tag or exp_tag is None:
                 ctx.fail('tagged:dump-tag', case, f'dumped member {dk!r} does not carry tag {exp_tag!r} under key {eff_key!r}', detail=src)
                 continue
@@ -410,10 +484,11 @@ def run_default(ctx: C.Ctx):
             if out[0] == 'err':
                 ctx.fail('tagged:roundtrip', case, f'load(dump(k)) raised {type(out[1]).__name__}: {str(out[1])[:300]}', detail=src)
             else:
-                y = out[1].member_fld
-                yk = {'bare': lambda z: z, 'optional': lambda z: z, 'list': lambda z: z[0], 'dictval': lambda z: z['a'], 'tuple': lambda z: z[1]}[pos](y)
+                yk = _AT[pos](obj_at(out[1], nest))
                 if type(yk) is not type(k) or not ref.same_typed(yk, k):
                     ctx.fail('tagged:roundtrip', case, f'load(dump(k)) gave {yk!r}, expected {k!r}', detail=src)
+                elif rec == 'selfref' and not ref.same_typed(out[1], x):
+                    ctx.fail('tagged:roundtrip', case, f'load(dump(x)) gave {out[1]!r}, expected {x!r} (self-referential main class)'[:900], detail=src)
                 if policy == 'catchall' and hasattr(yk, 'rest_items') and eff_key in (yk.rest_items or {}):
                     ctx.fail('tagged:captured', case, f'the tag key was captured by CatchAll: {yk.rest_items!r}', detail=src)
                 for sn, sv in sib_vals.items():
@@ -438,16 +513,15 @@ def run_default(ctx: C.Ctx):
             st = model.StdTables()
             st.add_json(jd)
             mty = with_auto_tags(root, auto)
-            in_model = not pathed          # the class model has no nested-path fields: those cases are carried by the oracle alone
+            in_model = not pathed and rec != 'selfref'   # the class model has no nested-path fields and is a tree: those cases are carried by the oracle alone
             if in_model:
                 reqs.append({'op': 'load', 'ty': model.enc_ty(mty), 'doc': model.enc_j(jd), 'std': st.build()})
                 pend.append((case, out, built))
             # ---- bad / missing tag
             bad = copy.deepcopy(jd)
-            tgt = {'bare': lambda z: z, 'optional': lambda z: z, 'list': lambda z: z[0], 'dictval': lambda z: z['a'], 'tuple': lambda z: z[1]}[pos](bad['memberFld'])
-            variant = rng.choice(['unassigned', 'missing'])
+            tgt = _AT[pos](doc_at(bad, 'memberFld', nest))
             if variant == 'unassigned':
-                tgt[eff_key] = rng.choice(['nope', 'Zzz', '', exp_tag + 'x', exp_tag.lower() + '_'])
+                tgt[eff_key] = ['nope', 'Zzz', '', exp_tag + 'x', exp_tag.lower() + '_'][bad_tag_pick]
             else:
                 tgt.pop(eff_key, None)
             out2 = load_outcome(lambda: fromdict(built.root, copy.deepcopy(bad)))
@@ -479,6 +553,10 @@ def run_default(ctx: C.Ctx):
                  'from_json(object_pairs_hook=OrderedDict): same dispatch and same ParseError as the plain dict. META IN STEPS: member and container Metas '
                  'arriving in 2-3 bindings (inner Meta, JSONPyWizard, LoadMeta / DumpMeta / hand-made Meta after the class statement), tag mostly in a later '
                  'binding, stale values overridden by later bindings.')
+    ctx.rule += (' WHERE / HOW THE UNION IS DECLARED: as a field of the main class or of a nested class (no Meta of its own) one or two levels below it; '
+                 'recursive_classes = True on the main class, with and without a self reference of the main class (the member is then checked one level down '
+                 'the self reference as well); dataclass members written as forward references inside a real typing.Union (Union[\'Cat\', \'Dog\', int]), '
+                 'the member classes defined before or after the class that refers to them; the first operation on the freshly defined classes is the dump.')
     if ctx.model_available:
         outs = ctx.driver.run(reqs)
         for (case, out, built), o_ in zip(pend, outs):
@@ -698,7 +776,13 @@ def run_v1(ctx: C.Ctx):
         # v1 load function of an auto-tagged member that is referenced BEFORE the Union field is generated without its tag; such
         # references are declared after the Union field here (explicitly tagged members are referenced on either side)
         sibs = sibling_fields(rng, members, K, before_ok=lambda m: bool((m['info'].get('meta') or {}).get('tag'))) if 'sibs' in dims else []
-        root = root_with_siblings(nm('R'), ft, meta, sibs)
+        nest, rec, fwd = draw_position_dims(rng, 'v1')
+        if fwd:
+            union['fwd'] = True if sibs else fwd      # a class that is also referred to by name is defined first
+        top_ft, holders = nest_union(nm, rng, ft, nest)
+        root = root_with_siblings(nm('R'), top_ft, meta, sibs)
+        if rec == 'selfref':
+            add_self_reference(root)
         stepped = spread_bindings(rng, members, root, 'v1') if rng.random() < 0.3 else {}
         try:
             built = model.Built(root)
@@ -725,13 +809,22 @@ def run_v1(ctx: C.Ctx):
                         z.rest_items = None      # what a load gives when nothing is captured
             norm([k, k2, sib_vals])
             wrapped = {'bare': k, 'optional': k, 'list': [k, k2], 'dictval': {'a': k}, 'tuple': ('s', k)}[pos]
+            for h in holders:
+                wrapped = built.get(h['info']['name'])(member_fld=wrapped)
             x = built.root(member_fld=wrapped, **sib_vals)
+            if rec == 'selfref':
+                x = built.root(member_fld=wrapped, again=x, **sib_vals)
             variant = rng.choice(['unassigned', 'missing', 'extra-key'])
             bad_tag_pick = rng.randint(0, 4)
             mapdim = draw_mapping(rng)
             if not ctx.begin_case(i):
                 continue
             case = {'ty': root, 'member': K['info']['name'], 'pos': pos, 'inst': repr(x)[:400], 'engine': 'v1', 'policy': policy, 'mirror': mirror}
+            if nest or rec or fwd:
+                case['declared'] = {'nested_levels': nest, 'self_reference': rec, 'forward_refs': union.get('fwd')}
+                for dname, on in (('nested-union', nest), ('self-reference', rec), ('forward-ref-members', fwd)):
+                    if on:
+                        ctx.seen('tagged:v1:dim:' + dname, case)
             if shared:
                 case['shared_name'] = shared
             if pathed:
@@ -753,7 +846,13 @@ def run_v1(ctx: C.Ctx):
             except Exception as e:
                 ctx.fail('tagged:v1:dump', case, f'asdict raised {e!r}', detail=src)
                 continue
-            dk = _AT[pos](d['member_fld']) if 'member_fld' in d else None
+            dk = doc_at(d, 'member_fld', nest)
+            dk = _AT[pos](dk) if dk is not None else None
+            if rec == 'selfref' and dk is not None:
+                dk2 = doc_at(d.get('again'), 'member_fld', nest)
+                dk2 = _AT[pos](dk2) if dk2 is not None else None
+                if not isinstance(dk2, dict) or dk2.get(eff_key) != exp_tag:
+                    dk = dk2
             if not isinstance(dk, dict) or dk.get(eff_key) != exp_tag or exp_tag is None:
                 ctx.fail('tagged:v1:dump-tag', case, f'dumped member {dk!r} does not carry tag {exp_tag!r} under key {eff_key!r}', detail=src)
                 continue
@@ -765,7 +864,7 @@ def run_v1(ctx: C.Ctx):
                 extra = f' naming {v1streams.unknown_keys_of(e)!r} for class {e.class_name!r}' if isinstance(e, UnknownKeysError) else ''
                 ctx.fail('tagged:v1:roundtrip', case, f'load(dump(k)) raised {type(e).__name__}{extra}: {str(e)[:300]}', detail=src)
             else:
-                yk = _AT[pos](out[1].member_fld)
+                yk = _AT[pos](obj_at(out[1], nest))
                 if has_ca and isinstance(yk.rest_items, dict) and eff_key in yk.rest_items and eff_key not in (k.rest_items or {}):
                     ctx.fail('tagged:v1:captured', case, f'the tag key was captured by CatchAll: {yk.rest_items!r}', detail=src)
                 elif type(yk) is not type(k) or not ref.same_typed(yk, k):
@@ -791,13 +890,13 @@ def run_v1(ctx: C.Ctx):
             st = model.StdTables()
             st.add_json(jd)
             mty = with_auto_tags(root, auto)
-            in_model = not pathed          # the class model has no nested-path fields: those cases are carried by the oracle alone
+            in_model = not pathed and rec != 'selfref'   # the class model has no nested-path fields and is a tree: those cases are carried by the oracle alone
             if in_model:
                 reqs.append({'op': 'loadv1', 'ty': model.enc_ty(mty), 'doc': model.enc_j(jd), 'std': st.build()})
                 pend.append((case, out, built))
             # ---- bad / missing tag, genuinely unknown key next to the tag
             bad = copy.deepcopy(jd)
-            tgt = _AT[pos](bad['member_fld'])
+            tgt = _AT[pos](doc_at(bad, 'member_fld', nest))
             assigned = [(m['info'].get('meta') or {}).get('tag') or (cname(m['info']) if auto else None) for m in members]
             if variant == 'unassigned':
                 tgt[eff_key] = ['nope', 'Zzz', '', exp_tag + 'x', exp_tag.lower() + '_'][bad_tag_pick]
@@ -818,7 +917,7 @@ def run_v1(ctx: C.Ctx):
                 elif out2[0] == 'err':
                     ctx.fail('tagged:v1:bad-extra-key', case2, f'an unknown key next to the tag made the load fail: {type(out2[1]).__name__}: {str(out2[1])[:200]}', detail=src)
                 elif has_ca:
-                    yk2 = _AT[pos](out2[1].member_fld)
+                    yk2 = _AT[pos](obj_at(out2[1], nest))
                     want = dict(k.rest_items or {})
                     want['zzz_unknown'] = 7
                     if yk2.rest_items != want:
@@ -874,7 +973,8 @@ def run_v1(ctx: C.Ctx):
         finally:
             built.close()
     run_shared_family(ctx, 'v1', v1streams.OFFSET + n + 2, ctx.quick(60, 600))
-    ctx.rule += ' The SHARED FAMILY, MAPPING TYPE and META IN STEPS dimensions of the default stream apply to this stream as well.'
+    ctx.rule += (' The SHARED FAMILY, MAPPING TYPE and META IN STEPS dimensions of the default stream apply to this stream as well, and so does WHERE / HOW '
+                 'THE UNION IS DECLARED (nested class one or two levels down, self-referential main class, forward-reference members defined before / after).')
     if ctx.model_available:
         outs = ctx.driver.run(reqs)
         for (case, out, built), o_ in zip(pend, outs):
